@@ -633,7 +633,11 @@ impl Ctx {
                     .set("case", v.case.clone())
             })
             .collect();
-        let mut fps: Vec<u64> = self.fingerprints.iter().copied().collect();
+        // exact up to FP_EXACT_MAX distinct cases per shard; beyond that a 1-in-64 hash sample is reported and the
+        // driver scales the count of the sampled union (and says so in the evidence)
+        const FP_EXACT_MAX: usize = 250_000;
+        let sampled = self.fingerprints.len() > FP_EXACT_MAX;
+        let mut fps: Vec<u64> = self.fingerprints.iter().copied().filter(|f| !sampled || f & 63 == 0).collect();
         fps.sort_unstable();
         // fingerprints can be many; keep them as decimal strings joined, cheap to parse
         let fp_json: Vec<Json> = fps.iter().map(|f| Json::Str(format!("{:x}", f))).collect();
@@ -644,6 +648,8 @@ impl Ctx {
             .set("evaluations", self.evaluations)
             .set("cases", self.cases)
             .set("fingerprints", Json::Arr(fp_json))
+            .set("fingerprints_sampled", sampled)
+            .set("fingerprints_in_shard", self.fingerprints.len() as u64)
             .set("counters", counters)
             .set("maxima", maxima)
             .set("notes", notes)
@@ -690,4 +696,49 @@ pub fn rel_close(a: f64, b: f64, tol: f64) -> bool {
         return false;
     }
     (a - b).abs() <= tol * a.abs().max(b.abs()).max(1e-300)
+}
+
+
+/// Reference canonicalisation of a double before hashing (Java's `Double.doubleToLongBits` after `-0.0 -> 0.0`):
+/// one NaN, one zero.
+pub fn canonical_f64_bits(v: f64) -> u64 {
+    if v.is_nan() {
+        0x7ff8_0000_0000_0000
+    } else if v == 0.0 {
+        0
+    } else {
+        v.to_bits()
+    }
+}
+
+/// Doubles whose bit patterns are not canonical, mixed with ordinary ones.
+pub fn special_f64(rng: &mut Rng) -> f64 {
+    match rng.below(12) {
+        0 => 0.0,
+        1 => -0.0,
+        2 => f64::NAN,
+        3 => f64::from_bits(0x7ff8_0000_0000_0001 | (rng.next_u64() & 0x0007_ffff_ffff_fffe)), // quiet NaN with a payload
+        4 => f64::from_bits(0xfff8_0000_0000_0000), // negative NaN
+        5 => f64::from_bits(0x7ff0_0000_0000_0001 | (rng.next_u64() & 0x0007_ffff_ffff_ffff)), // signalling NaN
+        6 => f64::INFINITY,
+        7 => f64::NEG_INFINITY,
+        8 => f64::from_bits(rng.below(1 << 20) + 1), // subnormal
+        9 => f64::MAX,
+        _ => (rng.below(64) as f64) / 4.0 - 3.0,
+    }
+}
+
+/// Singles whose widening to double is not canonical, mixed with ordinary ones.
+pub fn special_f32(rng: &mut Rng) -> f32 {
+    match rng.below(10) {
+        0 => 0.0,
+        1 => -0.0,
+        2 => f32::NAN,
+        3 => f32::from_bits(0x7fc0_0001 | (rng.next_u32() & 0x003f_fffe)),
+        4 => f32::from_bits(0xffc0_0000),
+        5 => f32::INFINITY,
+        6 => f32::NEG_INFINITY,
+        7 => f32::from_bits(rng.below(1 << 20) as u32 + 1),
+        _ => (rng.below(64) as f32) / 4.0 - 3.0,
+    }
 }
